@@ -372,9 +372,12 @@ def run(ctx, lean_ok):
         return 0.0 if r.random() < pzero else 10 ** r.uniform(-4, 3.5)
 
     def fp_violation(site, e, case):
+        # key = exception type + the tamoc function that raised it (same root cause -> same key, whatever the entry point);
+        # prefix `no-flow:` when neither phase flows
         fname, func, lineno = tamoc_site(e)
-        ctx.violation('%s:%s:%s' % (site, type(e).__name__, func),
-                      '%s: %s raised in %s:%s (l.%d) — %s' % (site, type(e).__name__, fname, func, lineno, e), case)
+        pre = 'no-flow:' if site.endswith('-no-flow') else ''
+        ctx.violation('%s%s:%s' % (pre, type(e).__name__, func),
+                      'called through %s: %s raised in %s:%s (l.%d) — %s' % (site, type(e).__name__, fname, func, lineno, e), case)
 
     def opt(x):
         return None if x is None else float(x)
@@ -387,6 +390,8 @@ def run(ctx, lean_ok):
         mg, mo = rnd_flux(0.3), rnd_flux(0.3)
         if mg == 0 and mo == 0 and r.random() < 0.8:
             mo = 10 ** r.uniform(-4, 3.5)
+        if i < 3:
+            mg = mo = 0.0            # neither phase flows: once per driver in every run
         flows = 'both' if (mg > 0 and mo > 0) else 'gas only' if mg > 0 else 'oil only' if mo > 0 else 'none'
         which = i % 3
         fp = r.randint(0, 1)
@@ -413,7 +418,7 @@ def run(ctx, lean_ok):
                 if not (d50 > 0 and dm is not None and dm > 0 and math.isfinite(d50)):
                     ctx.violation('sintef:median-not-positive', 'sintef: flowing phase without a positive median / d_max', dict(case, got=[d50, dm]))
                 elif use95 and not d50 * (math.log(0.05) / k) ** (1. / al) <= dm * (1 + 1e-9):
-                    ctx.violation('sintef:d95-exceeds-dmax', 'sintef: 95th percentile exceeds the maximum stable size', dict(case, got=[d50, dm, k, al]))
+                    ctx.violation('d95-exceeds-dmax:sintef', 'sintef: 95th percentile exceeds the maximum stable size', dict(case, got=[d50, dm, k, al]))
             grace_v, dp_v = rec.get('grace', 0.0), rec.get('dp', 0.0)
 
             def cb(o, d50=d50, dm=dm, k=k, al=al, case=case, dp_v=dp_v, q_req=q_req):
@@ -442,7 +447,7 @@ def run(ctx, lean_ok):
                 if not (d50 > 0 and dm is not None and dm > 0 and math.isfinite(d50)):
                     ctx.violation('li_etal:median-not-positive', 'li_etal: flowing phase without a positive median / d_max', dict(case, got=[d50, dm]))
                 elif not d50 * (math.log(0.05) / k) ** (1. / al) <= dm * (1 + 1e-9):
-                    ctx.violation('li_etal:d95-exceeds-dmax', 'li_etal: 95th percentile of the fitted distribution exceeds the maximum stable size (the d95 rule is never applied)',
+                    ctx.violation('d95-exceeds-dmax:li_etal', 'li_etal: 95th percentile of the fitted distribution exceeds the maximum stable size (the d95 rule is never applied)',
                                   dict(case, got=[d50, dm, k, al], d95=d50 * (math.log(0.05) / k) ** (1. / al)))
             if flows != 'none':
                 ask(req('Psf.li_etal', rec.get('grace', 0.0), d0, mgv, p['rho_gas'], mov, p['rho_oil'], mu_p, sg, p['rho'], p['mu'], fp),
@@ -467,7 +472,7 @@ def run(ctx, lean_ok):
                 if not (d50 > 0 and dm is not None and dm > 0 and math.isfinite(d50)):
                     ctx.violation('wang_etal:median-not-positive', 'wang_etal: flowing gas without a positive median / d_max', dict(case, got=[d50, dm]))
                 elif not math.exp(math.log(d50) + 1.6449 * sg) <= dm * (1 + 1e-9):
-                    ctx.violation('wang_etal:d95-exceeds-dmax', 'wang_etal: 95th percentile exceeds the maximum stable size', dict(case, got=[d50, dm, sg]))
+                    ctx.violation('d95-exceeds-dmax:wang_etal', 'wang_etal: 95th percentile exceeds the maximum stable size', dict(case, got=[d50, dm, sg]))
                 if m_g > math.fsum(mgv) * (1 + 1e-9):
                     ctx.count('wang_etal returns more gas than supplied (not part of C16)')
             ch4 = rec.get('ch4', [])
@@ -513,7 +518,7 @@ def run(ctx, lean_ok):
             elif isinstance(exc, AttributeError) and model_gas == 'wang_etal' and pdf_gas == 'rosin-rammler':
                 raised_attr = True
                 fname, func, lineno = tamoc_site(exc)
-                ctx.violation('ModelBase:wang_etal+rosin-rammler:AttributeError', 'ModelBase.simulate(model_gas=wang_etal, pdf_gas=rosin-rammler) stores the shape '
+                ctx.violation('AttributeError:wang_etal+rosin-rammler', 'ModelBase.simulate(model_gas=wang_etal, pdf_gas=rosin-rammler) stores the shape '
                               'parameter in sigma_gas; get_distributions raises %s (%s l.%d): no gas distribution is produced' % (exc, fname, lineno), case)
             else:
                 fname, func, lineno = tamoc_site(exc)
@@ -538,7 +543,7 @@ def run(ctx, lean_ok):
                 else:
                     d95 = math.exp(math.log(mb.d50_oil) + 1.6449 * mb.sigma_ln_oil)
                 if not d95 <= mb.de_max_oil * (1 + 1e-9):
-                    ctx.violation('ModelBase:d95-exceeds-dmax:oil:' + model_oil, 'ModelBase: 95th percentile of the oil distribution exceeds the maximum stable size',
+                    ctx.violation('d95-exceeds-dmax:' + model_oil, 'ModelBase: 95th percentile of the oil distribution exceeds the maximum stable size',
                                   dict(case, d50=float(mb.d50_oil), d95=float(d95), de_max=float(mb.de_max_oil)))
             if mg > 0:
                 if pdf_gas == 'rosin-rammler':
@@ -546,7 +551,7 @@ def run(ctx, lean_ok):
                 else:
                     d95 = math.exp(math.log(mb.d50_gas) + 1.6449 * mb.sigma_ln_gas)
                 if not d95 <= mb.de_max_gas * (1 + 1e-9):
-                    ctx.violation('ModelBase:d95-exceeds-dmax:gas:' + model_gas, 'ModelBase: 95th percentile of the gas distribution exceeds the maximum stable size',
+                    ctx.violation('d95-exceeds-dmax:' + model_gas, 'ModelBase: 95th percentile of the gas distribution exceeds the maximum stable size',
                                   dict(case, d50=float(mb.d50_gas), d95=float(d95), de_max=float(mb.de_max_gas)))
             ask(req('Psf.mb_gas', grace_v, ch4[0], ch4[1], mgi, pgi, nbg, d0, mg, mo, p['rho_gas'], p['mu_gas'], p['sigma_gas'], p['rho_oil'], p['rho'], p['mu'], Pj),
                 lambda o, de=fl(de_g), vf=fl(vf_g), case=case: (corr('Model.Psf.mbGas vs ModelBase (gas) de', o[1] if o[0] == 1 else None, de, case, tol=1e-10),
